@@ -55,6 +55,25 @@ def gen(rng, n):
             d.pop("SEND_WINDOW", None)
             d.pop("ZERO_RTT", None)
             d.pop("PACING_BPS", None)
+        elif rng.chance(1, 4):
+            # credit starvation: a connection window far below the workload, so that every MAX_DATA /
+            # MAX_STREAM_DATA matters, under heavy loss with runs of up to three consecutive drops (a
+            # control frame AND its retransmission can be lost)
+            d["RWND"] = rng.choice([1000, 2000, 3000])
+            if rng.chance(1, 2):
+                d["STREAM_RWND"] = rng.choice([500, 1000])
+            else:
+                d.pop("STREAM_RWND", None)
+            d["STREAM_BYTES"] = 20 * d["RWND"]
+            d["WRITE_CHUNK"] = 100000
+            d["READ_MAX"] = 100000
+            d["LOSS"] = rng.choice([150, 200, 250])
+            d["DUP"] = 0
+            d["FAIR_RUN"] = 3
+            d.pop("DROP_MASK", None)
+            d.pop("SEND_WINDOW", None)
+            d.pop("ZERO_RTT", None)
+            d.pop("PACING_BPS", None)
         # keep the transfer within a few hundred round trips of the smallest window
         w = min(d.get("STREAM_RWND", 1 << 40), d.get("RWND", 1 << 40), d.get("SEND_WINDOW", 1 << 40))
         k = 20 if d.get("LOSS", 0) >= 100 else 100
